@@ -77,5 +77,5 @@ Lemma DF_decl_eq p G dpre d off dpost es1 kes es2 ys ys' :
   decl_fault_program p G ys'.
 Proof. intros H1 H2 H3 H4 H5 H6 H7 ->. eapply DF_decl; eassumption. Qed.
 
-Definition table_of (p : program) : gtable := match build_res p with ROk (_, g) => g | RFail _ => [] end.
-Definition er (s e : nat) (m : bmsg) : err := {| e_s := s; e_e := e; e_m := EBuild m |}.
+Definition built_table (p : program) : gtable := match build_res p with ROk (_, g) => g | RFail _ => [] end.
+Definition berr (s e : nat) (m : bmsg) : err := {| e_s := s; e_e := e; e_m := EBuild m |}.
